@@ -576,6 +576,7 @@ class Solver:
             st.solver = st.solver.shallow_copy()
         old_conn = copy(self.connections)
         old_mapping = copy(self.pin_mapping)
+        old_defaults = copy(self.default_params)
         if solvers == []:
             return False
 
@@ -619,6 +620,7 @@ class Solver:
             for lower_st in st.solver.structures:
                 lower_st.param_mapping.update(up_dic[lower_st])
 
+        self.default_params = old_defaults
         return True
 
     def flatten(self) -> None:
